@@ -14,10 +14,12 @@ from hypothesis import strategies as st
 import pymbolic
 from pymbolic.mapper.evaluator import CachedEvaluationMapper, EvaluationMapper
 
+import pymbolic.primitives as p
+
 from pbt import envs, strategies as S, walk
 from pbt.refsem import RefSkip, compare_with_ref, ref_eval
 from pbt.runner import Result
-from pbt.spec import twin_first, twin_how, build
+from pbt.spec import twin_first, twin_how, hash_twin, build
 
 PROP = "C02"
 LEVEL = "exploration"
@@ -146,15 +148,18 @@ def check_box(spec):
 def _known_retyped_composite(sub, spec, fail):
     """F38 (see C05): memoizing evaluation shares one cache entry between composite
     sub-expressions that are == but differ in a constant's type (2*x and 2.0*x)."""
-    if "Cached" not in fail.detail and "evaluate" not in fail.detail:
-        return False
     if fail.kind not in ("value-mismatch", "unexpected-exception", "value-instead-of-error",
                          "wrong-exception") and not fail.kind.startswith("unexpected-exception"):
         return False
+    # the plain evaluator memoizes wrappers only (its CSE cache): there the two == nodes
+    # have to be wrappers; the memoizing evaluators share entries between any composites
+    wrappers_only = "Cached" not in fail.detail and "evaluate" not in fail.detail
     e = build(spec["expr"])
     seen = {}
     for _, n in walk.occurrences(e):
         if not walk.children(n):
+            continue
+        if wrappers_only and not isinstance(n, p.CommonSubexpression):
             continue
         k = (type(n).__name__, repr(walk.key(n, strict=False)))
         sk = repr(walk.key(n, strict=True))
@@ -190,6 +195,24 @@ def eval_case(draw):
         ex = draw(S.expr("INT", draw(st.integers(1, 5)), FRAG))
     else:
         ex = draw(S.expr("NUM", draw(st.integers(1, 5)), FRAG))
+    if draw(st.integers(0, 7)) == 0:
+        # two sub-terms that differ only in -1 / -2: unequal, with equal hashes
+        # (hash(-1) == hash(-2) in CPython) - bare and inside wrappers
+        t = draw(st.sampled_from((
+            ["Sum", [["Var", "x"], ["Const", "int", -1]]],
+            ["Product", [["Const", "int", -1], ["Var", "y"]]],
+            ["Power", ["Var", "x"], ["Const", "int", -1]],
+            ["Subscript", ["Var", "A"], ["Const", "int", -1]],
+            ["Sum", [draw(S.expr("INT", 1, FRAG)), ["Const", "int", -2]]])))
+        tw = hash_twin(t)
+        if draw(st.booleans()):
+            pre = draw(st.sampled_from((None, "u")))
+            t, tw = (["CommonSubexpression", q, pre, "pymbolic_eval"] for q in (t, tw))
+        parts = [t, tw] if draw(st.booleans()) else [tw, t]
+        if draw(st.booleans()):
+            parts.append(t)
+        ex = [draw(st.sampled_from(("Sum", "Product", "Tuple"))), parts + (
+            [ex] if draw(st.booleans()) and ex[0] not in ("Tuple", "List", "NpArray") else [])]
     env = draw(S.env_for(FRAG))
     return {"expr": ex, "env": env}
 
